@@ -118,4 +118,21 @@ MinMaxOK == \A l \in {p \in Pairs : p[2] = "L"}, r \in {p \in Pairs : p[2] = "R"
    an existing place ("p"), `let x` ("l"), `let x: T` ("t") or `_` ("u"); component k goes to position k *)
 RebindKinds == {"p", "l", "t", "u"}
 RebindAssign(pats) == [k \in 1..Len(pats) |-> IF pats[k] = "u" THEN 0 ELSE k]      \* which component each position receives
+
+(* ... "in order": the assignments happen left to right, which is observable when the places depend on each other.
+   Place kinds here: "p" the variable p, "x" the element arr[p] (indexed by the *current* value of p), "u" `_`.
+   Component k has the value k; p starts at 0 and arr at all zeros. *)
+OrderKinds == {"p", "x", "u"}
+RECURSIVE RebindOrdFrom(_, _, _)
+RebindOrdFrom(pats, k, st) ==
+    IF k > Len(pats) THEN st
+    ELSE RebindOrdFrom(pats, k + 1,
+            CASE pats[k] = "p" -> [st EXCEPT !.p = k]
+              [] pats[k] = "x" -> [st EXCEPT !.arr[st.p] = k]
+              [] OTHER -> st)
+RebindOrd(pats) == RebindOrdFrom(pats, 1, [p |-> 0, arr |-> [q \in 0..3 |-> 0]])
+
+(* by-value fallback arguments (unwrap_or / ok_or, result::unwrap_or) are ordinary arguments: like std's method call the
+   macro evaluates them exactly once whether or not the fallback is used (`match ($e, $v)`) *)
+EagerArg(f, mc) == (f = "option" /\ mc \in {"unwrap_or", "ok_or"}) \/ (f = "result" /\ mc = "unwrap_or")
 =============================================================================
